@@ -158,7 +158,9 @@ impl<'a, 'g> Parser<'a, 'g> {
                     self.advance()?;
                     let key = self.expr()?;
                     self.expect(Tok::RBracket)?;
-                    e = Expr::Index(Box::new(IndexE { obj: e, key, line, dot: false, emitted: self.emitted(line) }));
+                    // `a["name"]` with a literal string key is a field read like `a.name`
+                    let dot = matches!(key, Expr::Str(_));
+                    e = Expr::Index(Box::new(IndexE { obj: e, key, line, dot, emitted: self.emitted(line) }));
                 }
                 Tok::Colon => {
                     self.advance()?;
